@@ -61,6 +61,10 @@ type step struct {
 	BbhErr  bool       `json:"bbherr,omitempty"`
 	Bump    uint64     `json:"bump,omitempty"`
 	Extras  []extraLog `json:"extras,omitempty"`
+	// restart (extension X4): Run is made to return and the supervisor re-enters it on the same Watcher value
+	Kill   string `json:"kill,omitempty"`   // blocktime: a log (Tx, Body, ..) whose block-time lookup fails | pollfail: three failing polls
+	GsFail string `json:"gsfail,omitempty"` // idx | set: that call of the re-entered Run's initial guardian-set fetch fails once (Run returns again)
+	Upg    []int  `json:"upg,omitempty"`    // sizes of the guardian sets appended to the contract before Run is made to return
 }
 
 type scenCfg struct {
@@ -70,6 +74,7 @@ type scenCfg struct {
 	PollMs    uint   `json:"pollms"`
 	Sentinel  bool   `json:"sentinel"` // a never-ready message keeps the poller switched on for the whole history
 	Name      string `json:"name"`
+	Restarts  bool   `json:"restarts,omitempty"` // the generated script makes Run return and be re-entered (extension X4)
 }
 
 const sentinelTx = 900001
@@ -113,6 +118,20 @@ type mReobs struct {
 	Rc *mRcpt `json:"rc"`
 	BT int64  `json:"bt"` // -1: block time lookup fails
 }
+type mLogLost struct {
+	T  string `json:"t"` // "loglost"
+	Ev mLog   `json:"ev"`
+}
+type mPollDead struct {
+	T string `json:"t"` // "polldead"
+}
+type mRestart struct {
+	T      string `json:"t"` // "restart"
+	AnsIdx int64  `json:"ai"`
+	Asked  int64  `json:"asked"`
+	SetErr bool   `json:"seterr"`
+	Keys   []int  `json:"keys"`
+}
 type fwdMsg struct {
 	Body int    `json:"body"`
 	Tx   int    `json:"tx"`
@@ -129,6 +148,8 @@ type group struct {
 	Ops  []interface{} `json:"ops"`
 	Fw   []fwdMsg      `json:"fw"`
 	Pend [][4]uint64   `json:"pend"`
+	Sets []gsSent      `json:"sets"` // what arrived on setChan during the step
+	Died int           `json:"died"` // how often Run returned during the step
 }
 type histRow struct {
 	K       string         `json:"k"`
@@ -141,6 +162,8 @@ type histRow struct {
 	Mon     []string       `json:"mon"`
 	Harness []string       `json:"harness"` // machinery problems (rendezvous timeouts, watcher died)
 	Stats   map[string]int `json:"stats"`
+	Cur0    int64          `json:"cur0"` // index of the guardian set the first Run fetched
+	Exp     []string       `json:"exp"`  // experimental monitors (extension X4): reported as coverage, not as problems
 }
 
 // ---------------------------------------------------------------- zap observer (the watcher's own log is the trace of its head processing)
@@ -260,6 +283,18 @@ type scen struct {
 	groups  []group
 	stats   map[string]int
 	syncSeq uint64
+
+	setC         chan *common.GuardianSet
+	runs         int64 // how often Run was entered
+	deaths       int64 // how often Run returned while the context was alive
+	expectDeaths int64 // deaths the script asked for and has not seen yet
+	lastDeath    atomic.Value
+	pollerOff    bool // Run was re-entered and no log has been inserted since: the new poller is switched off
+	cur0         int64
+	exp          []string
+	maxScan      uint64    // highest head of a completed scan
+	lost         []*gtInst // logs whose block-time lookup was made to fail
+	keyGen       gsKeyGen
 }
 
 const rendezvousTimeout = 10 * time.Second
@@ -299,7 +334,9 @@ func startScen(cfg scenCfg) (*scen, error) {
 	ss.sim.finalizedMode = cfg.Finalized
 	sc := &scen{cfg: cfg, ss: ss, sim: ss.sim, msgC: make(chan *common.MessagePublication, 4096), obsvC: make(chan *gossipv1.ObservationRequest),
 		logs: map[int]*simLog{}, insts: map[[4]uint64]*gtInst{}, stats: map[string]int{}}
-	setC := make(chan *common.GuardianSet, 8)
+	setC := make(chan *common.GuardianSet, 64)
+	sc.setC = setC
+	ss.sim.gs = &gsSim{sets: [][]int{sc.keyGen.set(1 + int(cfg.Head0%3))}}
 	chain := vaa.ChainIDBSC
 	dev := true
 	if cfg.Finalized {
@@ -314,9 +351,14 @@ func startScen(cfg scenCfg) (*scen, error) {
 	sc.cancel = cancel
 	logger := zap.New(&obsCore{sim: ss.sim})
 	supervisor.New(ctx, logger, func(ctx context.Context) error {
+		atomic.AddInt64(&sc.runs, 1)
 		err := sc.w.Run(ctx)
 		if ctx.Err() == nil {
-			sc.died.Store(fmt.Sprintf("%v", err))
+			sc.lastDeath.Store(fmt.Sprintf("%v", err))
+			if atomic.AddInt64(&sc.expectDeaths, -1) < 0 {
+				sc.died.Store(fmt.Sprintf("%v", err)) // a death the script did not ask for
+			}
+			atomic.AddInt64(&sc.deaths, 1)
 		}
 		return err
 	})
@@ -329,7 +371,8 @@ func startScen(cfg scenCfg) (*scen, error) {
 		return nil, fmt.Errorf("log subscription not established")
 	}
 	select {
-	case <-setC:
+	case g0 := <-setC:
+		sc.cur0 = int64(g0.Index)
 	case <-time.After(rendezvousTimeout):
 		sc.stop()
 		return nil, fmt.Errorf("guardian set not delivered")
@@ -394,6 +437,12 @@ func (sc *scen) pendingEmpty() bool {
 // are the trace of head processing), or has nothing pending: the poller is then switched off.  The head the node had when the
 // poller started is never published (the poller publishes only heads above its lastBlock), so it counts as processed.
 func (sc *scen) settle(what string) {
+	if sc.pollerOff {
+		// Run was re-entered and no log has arrived since: the new poller is off, no head will be processed (extension X4).  Give a
+		// head that is in flight against expectation the time to show up in the trace, then go on.
+		time.Sleep(60 * time.Millisecond)
+		return
+	}
 	sc.sim.mu.Lock()
 	p0 := sc.sim.pollsArrived
 	sc.sim.mu.Unlock()
@@ -501,6 +550,8 @@ func (sc *scen) runStep(si int, st *step) {
 	}
 	sim.mu.Unlock()
 	g := group{Step: si}
+	deaths0 := atomic.LoadInt64(&sc.deaths)
+	var restartOps []interface{}
 	var reobsInfo *mReobs
 	var logKey [4]uint64
 	var logOp *mLog
@@ -558,6 +609,7 @@ func (sc *scen) runStep(si int, st *step) {
 			sc.harnessf("step %d: the subscription filter rejected a core-contract log", si)
 			break
 		}
+		sc.pollerOff = false // the insertion of this log calls EnablePoller()
 		logOp = &mLog{T: "log", Tx: st.Tx, BH: st.BH, Em: st.Em, Seq: st.Seq, CL: int(st.CL), Body: st.Body, H: st.Block, BT: blockTimeOf(hID(kindBlock, uint64(st.BH))),
 			No: l.Nonce, Tg: l.Target}
 		inst := sc.insts[logKey]
@@ -621,7 +673,7 @@ func (sc *scen) runStep(si int, st *step) {
 		}
 		p0 := sim.pollsArrived
 		sim.mu.Unlock()
-		if st.Op == "stall" {
+		if st.Op == "stall" && !sc.pollerOff {
 			// two further polls (or nothing pending: no polls at all)
 			waitUntil(rendezvousTimeout, func() bool {
 				if sc.pendingEmpty() {
@@ -640,6 +692,110 @@ func (sc *scen) runStep(si int, st *step) {
 			delete(sim.rcptErr, t)
 		}
 		sim.mu.Unlock()
+
+	case "restart":
+		expected := int64(1)
+		if st.GsFail != "" {
+			expected = 2
+		}
+		sim.mu.Lock()
+		for _, n := range st.Upg {
+			sim.gs.sets = append(sim.gs.sets, sc.keyGen.set(n))
+		}
+		subs0, calls0 := sim.subCount, len(sim.gs.calls)
+		sim.mu.Unlock()
+		runs0 := atomic.LoadInt64(&sc.runs)
+		atomic.AddInt64(&sc.expectDeaths, expected)
+		switch st.Kill {
+		case "blocktime":
+			l := &simLog{Body: st.Body, Tx: st.Tx, Em: st.Em, Seq: st.Seq, CL: st.CL, Nonce: uint32(st.Body*7 + 1), Target: uint16(st.Body%5 + 1)}
+			sc.logs[st.Body] = l
+			sim.mu.Lock()
+			r := sim.rcpts[st.Tx]
+			if r == nil {
+				r = &simRcpt{Status: 1, BH: st.BH, Block: st.Block}
+				sim.rcpts[st.Tx] = r
+			}
+			r.Logs = append(r.Logs, l)
+			sim.bbhErr[st.BH] = true
+			sim.mu.Unlock()
+			if !sim.push(l.ethLog(st.BH, st.Block, 0)) {
+				sc.harnessf("step %d: the subscription filter rejected a core-contract log", si)
+			}
+			restartOps = append(restartOps, mLogLost{T: "loglost", Ev: mLog{T: "log", Tx: st.Tx, BH: st.BH, Em: st.Em, Seq: st.Seq, CL: int(st.CL), Body: st.Body, H: st.Block,
+				BT: blockTimeOf(hID(kindBlock, uint64(st.BH))), No: l.Nonce, Tg: l.Target}})
+			sc.lost = append(sc.lost, &gtInst{log: l, bh: st.BH, block: st.Block})
+		case "pollfail":
+			sim.mu.Lock()
+			sim.pollFailAll = true
+			sim.mu.Unlock()
+			restartOps = append(restartOps, mPollDead{T: "polldead"})
+		default:
+			sc.harnessf("step %d: unknown way to end Run: %q", si, st.Kill)
+		}
+		okDeath := waitUntil(2*rendezvousTimeout, func() bool { return atomic.LoadInt64(&sc.deaths) >= deaths0+1 || sc.died.Load() != nil })
+		sim.mu.Lock()
+		sim.pollFailAll = false
+		delete(sim.bbhErr, st.BH)
+		switch st.GsFail {
+		case "idx":
+			sim.gs.failIdxN = 1
+		case "set":
+			sim.gs.failSetN = 1
+		}
+		pollsAtDeath := sim.pollsArrived
+		sim.mu.Unlock()
+		if !okDeath {
+			sc.harnessf("step %d: Run did not return after %s", si, st.Kill)
+			break
+		}
+		// the supervisor re-enters Run (after its back-off) on the same Watcher value: wait until the last re-entry has subscribed to the
+		// logs, fetched the guardian set (the last thing before the goroutines start) and its poller has read its first block
+		okUp := waitUntil(3*rendezvousTimeout, func() bool {
+			if sc.died.Load() != nil {
+				return true
+			}
+			if atomic.LoadInt64(&sc.runs) < runs0+expected || atomic.LoadInt64(&sc.deaths) < deaths0+expected {
+				return false
+			}
+			sim.mu.Lock()
+			defer sim.mu.Unlock()
+			cs := sim.gs.calls[calls0:]
+			n := len(cs)
+			return sim.subCount >= subs0+int(expected) && n >= 2 && cs[n-2].Kind == "idx" && !cs[n-2].Err && cs[n-1].Kind == "set" && !cs[n-1].Err &&
+				sim.pollsArrived > pollsAtDeath
+		})
+		if !okUp {
+			sim.mu.Lock()
+			sc.harnessf("step %d: Run was not up again after %s (entered %d times since, returned %d times, subscriptions %d, guardian-set calls %+v)", si, st.Kill,
+				atomic.LoadInt64(&sc.runs)-runs0, atomic.LoadInt64(&sc.deaths)-deaths0, sim.subCount-subs0, sim.gs.calls[calls0:])
+			sim.mu.Unlock()
+			break
+		}
+		time.Sleep(100 * time.Millisecond)
+		sc.pollerOff = true
+		sc.stats["restarts"] += int(expected)
+		sim.mu.Lock()
+		cs := append([]gsCall(nil), sim.gs.calls[calls0:]...)
+		// the new poller takes the node's head at its start as its first lastBlock: a head it never publishes (as at the first start)
+		if sim.head > sim.lastProcessed {
+			sim.lastProcessed = sim.head
+		}
+		sim.mu.Unlock()
+		for i := 0; i < len(cs); i++ {
+			if cs[i].Kind != "idx" {
+				continue
+			}
+			op := mRestart{T: "restart", AnsIdx: cs[i].Idx, Asked: -1, Keys: []int{}}
+			if !cs[i].Err && i+1 < len(cs) && cs[i+1].Kind == "set" {
+				op.Asked, op.SetErr = cs[i+1].Asked, cs[i+1].Err
+				if !cs[i+1].Err {
+					op.Keys = cs[i+1].Keys
+				}
+			}
+			restartOps = append(restartOps, op)
+		}
+		sc.settle("restart")
 
 	case "reorg":
 		sim.mu.Lock()
@@ -822,12 +978,21 @@ func (sc *scen) runStep(si int, st *step) {
 			after = append(after, op)
 		}
 		sc.stats["scans"]++
+		if s.N > sc.maxScan {
+			sc.maxScan = s.N
+		}
 		sc.stats["lookups"] += len(lks)
 		for _, n := range s.Notes {
 			sc.stats["note_"+n]++
 		}
 	}
 	g.Ops = append(g.Ops, before...)
+	if restartOps != nil {
+		// scans of this step were made by the Run that was then made to return: the new poller is off
+		g.Ops = append(g.Ops, after...)
+		after = nil
+		g.Ops = append(g.Ops, restartOps...)
+	}
 	if logOp != nil {
 		g.Ops = append(g.Ops, logOp)
 	}
@@ -843,6 +1008,24 @@ func (sc *scen) runStep(si int, st *step) {
 		g.Fw = []fwdMsg{}
 	}
 	g.Pend = sortedPend(pend)
+	g.Sets = []gsSent{}
+drainSets:
+	for {
+		select {
+		case gs := <-sc.setC:
+			x := gsSent{Idx: int64(gs.Index), Keys: []int{}}
+			for _, k := range gs.Keys {
+				x.Keys = append(x.Keys, gsKeyID(k))
+			}
+			g.Sets = append(g.Sets, x)
+		default:
+			break drainSets
+		}
+	}
+	g.Died = int(atomic.LoadInt64(&sc.deaths) - deaths0)
+	for _, m := range fw {
+		sc.stats[fmt.Sprintf("fwdbody_%d", m.Body)]++
+	}
 	sc.groups = append(sc.groups, g)
 	sc.stats["forwarded"] += len(fw)
 
@@ -1055,6 +1238,19 @@ func (sc *scen) runStep(si int, st *step) {
 			}
 		}
 	}
+	// (x) extension X4, experimental (reported, not registered as a problem): Run was re-entered, nothing switched the new poller on,
+	// the node's head is past the depth of a pending message whose receipt is unchanged - and no head is processed
+	if sc.pollerOff && (st.Op == "head" || st.Op == "stall" || st.Op == "restart") && len(scans) == 0 {
+		for key, inst := range sc.insts {
+			_, stillPending := pend[key]
+			r := rcptOf(inst.log.Tx)
+			if inst.awaiting && stillPending && inst.log.Tx != sentinelTx && inst.block+sc.expected(inst.log.CL) <= headNow && r != nil && r.Status == 1 && r.BH == inst.bh {
+				sc.exp = append(sc.exp, fmt.Sprintf("restart:pending-stalled|step %d (%s): Run was re-entered and its new poller is off: the node's head is %d, tx %d (block %d, level %d, receipt unchanged) is pending and confirmable, no head is processed until another log arrives",
+					si, st.Op, headNow, inst.log.Tx, inst.block, inst.log.CL))
+				break
+			}
+		}
+	}
 	// (c) pending set vs ground truth
 	for key, inst := range sc.insts {
 		if _, in := pend[key]; inst.awaiting && !in {
@@ -1101,6 +1297,31 @@ func runScenario(sid int, cfg scenCfg, script []step) histRow {
 	}
 	sc.stats["polls_failed"] = int(sc.sim.pollsFailed)
 	sc.sim.mu.Unlock()
+	for _, li := range sc.lost {
+		sc.sim.mu.Lock()
+		r := sc.sim.rcpts[li.log.Tx]
+		head, lastProc := sc.sim.head, sc.maxScan
+		sc.sim.mu.Unlock()
+		reannounced := false
+		for k := range sc.insts {
+			if int(k[0]) == li.log.Tx && k[3] == li.log.Seq {
+				reannounced = true
+			}
+		}
+		if sc.stats[fmt.Sprintf("fwdbody_%d", li.log.Body)] == 0 && !reannounced && r != nil && r.Status == 1 && r.BH == li.bh && li.block+sc.expected(li.log.CL) <= lastProc {
+			sc.exp = append(sc.exp, fmt.Sprintf("restart:log-lost|the block-time lookup of the log of tx %d (block %d, level %d) failed once: Run returned, the log was never recorded; its receipt is unchanged (status 1, same block), the watcher has processed head %d (node head %d) and the message was never forwarded",
+				li.log.Tx, li.block, li.log.CL, lastProc, head))
+		}
+	}
+	for k := range sc.stats {
+		if strings.HasPrefix(k, "fwdbody_") {
+			delete(sc.stats, k)
+		}
+	}
+	row.Cur0, row.Exp = sc.cur0, sc.exp
+	if row.Exp == nil {
+		row.Exp = []string{}
+	}
 	row.Groups, row.Mon, row.Harness, row.Stats = sc.groups, sc.mon, sc.harness, sc.stats
 	if row.Mon == nil {
 		row.Mon = []string{}
@@ -1147,7 +1368,52 @@ func genScript(r *erng, cfg *scenCfg, sentinel bool, maxWait uint64) []step {
 		}
 		return 0
 	}
+	genPollerOff := false
+	restartsLeft := 0
+	if cfg.Restarts {
+		restartsLeft = 1 + r.below(2)
+	}
 	for len(out) < n {
+		if restartsLeft > 0 && len(logs) > 0 && r.chance(9) {
+			// Run is made to return; the supervisor re-enters it on the same Watcher value
+			restartsLeft--
+			st := step{Op: "restart", Kill: "blocktime"}
+			if sentinel && !genPollerOff && r.chance(35) {
+				st.Kill = "pollfail" // needs a running poller: the sentinel keeps it on unless Run was re-entered and no log has arrived since
+			}
+			genPollerOff = true
+			if st.Kill == "blocktime" {
+				st.Tx, st.Body, st.Em, st.Seq, st.CL, st.Block, st.BH = nextTx, nextBody, 1+r.below(3), uint64(nextBody), clChoices[r.below(len(clChoices))], head, nextBH
+				txs = append(txs, &genTx{id: nextTx, bh: nextBH, block: head, logs: []int{nextBody}})
+				nextTx++
+				nextBody++
+				nextBH++
+			}
+			if r.chance(45) {
+				st.Upg = []int{gsSizes[r.below(len(gsSizes))]}
+				if r.chance(25) {
+					st.Upg = append(st.Upg, gsSizes[r.below(len(gsSizes))])
+				}
+			}
+			if restartsLeft > 0 && r.chance(30) {
+				restartsLeft--
+				st.GsFail = []string{"idx", "set"}[r.below(2)]
+			}
+			out = append(out, st)
+			// the chain runs on while the new poller is off ...
+			if r.chance(70) {
+				l := logs[len(logs)-1-r.below(min(len(logs), 3))]
+				to := l.block + exp(l.cl) + uint64(r.below(4))
+				if r.chance(30) {
+					to += maxWait + uint64(r.below(40))
+				}
+				if to > head {
+					head = to
+					out = append(out, step{Op: "head", To: to})
+				}
+			}
+			continue
+		}
 		c := r.below(100)
 		switch {
 		case c < 28 || len(logs) == 0: // a new message
@@ -1178,6 +1444,7 @@ func genScript(r *erng, cfg *scenCfg, sentinel bool, maxWait uint64) []step {
 			tx.logs = append(tx.logs, l.body)
 			logs = append(logs, l)
 			out = append(out, step{Op: "log", Tx: tx.id, Body: l.body, Em: l.em, Seq: l.seq, CL: l.cl, Block: tx.block, BH: tx.bh})
+			genPollerOff = false
 		case c < 68: // the head advances
 			st := step{Op: "head"}
 			to := head + 1
@@ -1331,6 +1598,24 @@ func corpus() []struct {
 		{scenCfg{Wait: false, Finalized: true, Head0: 1000, PollMs: 1, Name: "reobs-not-final-nothing-pending"},
 			[]step{{Op: "log", Tx: 1, Body: 1, Em: 1, Seq: 1, CL: 1, Block: 1000, BH: 1}, hd(1001), {Op: "reorg", Tx: 1, How: "moved", BH: 9, Block: 1030}, {Op: "reobs", Tx: 1}, hd(1031), {Op: "reobs", Tx: 1}}},
 		{scenCfg{Wait: false, Head0: 1000, PollMs: 1, Name: "no-wait-mode"}, []step{lg(1, 1, 1001, 200), hd(1001), lg(2, 2, 1001, 15), hd(1002)}},
+		// ---- extension X4: Run returns (errC) and the supervisor re-enters it on the same Watcher value
+		{scenCfg{Wait: true, Head0: 999, PollMs: 1, Name: "restart-pending-survives-poller-off-until-next-log"},
+			[]step{lg(1, 1, 1000, 2), hd(1001), {Op: "restart", Kill: "blocktime", Tx: 2, Body: 2, Em: 1, Seq: 2, CL: 1, Block: 1001, BH: 2},
+				hd(1002), hd(1100), {Op: "stall"}, lg(3, 3, 1100, 1), hd(1101), hd(1102)}},
+		{scenCfg{Wait: true, Head0: 999, PollMs: 1, Name: "restart-new-guardian-set-sent-once"},
+			[]step{lg(1, 1, 1000, 1), {Op: "restart", Kill: "blocktime", Tx: 2, Body: 2, Em: 1, Seq: 2, CL: 1, Block: 1000, BH: 2, Upg: []int{3}},
+				{Op: "restart", Kill: "blocktime", Tx: 3, Body: 3, Em: 1, Seq: 3, CL: 1, Block: 1000, BH: 3}, lg(4, 4, 1001, 1), hd(1002), hd(1003)}},
+		{scenCfg{Wait: true, Head0: 999, PollMs: 1, Name: "restart-initial-fetch-fails-then-succeeds"},
+			[]step{lg(1, 1, 1000, 1), {Op: "restart", Kill: "blocktime", Tx: 2, Body: 2, Em: 1, Seq: 2, CL: 1, Block: 1000, BH: 2, Upg: []int{2, 19}, GsFail: "set"},
+				lg(3, 3, 1001, 1), hd(1002), {Op: "restart", Kill: "blocktime", Tx: 4, Body: 4, Em: 1, Seq: 4, CL: 1, Block: 1002, BH: 4, GsFail: "idx"}, hd(1010)}},
+		{scenCfg{Wait: true, Head0: 999, PollMs: 1, Sentinel: true, Name: "restart-after-three-failed-polls"},
+			[]step{{Op: "log", Tx: sentinelTx, Body: sentinelTx, Em: 9, Seq: 0, CL: 1, Block: sentinelHeight, BH: sentinelTx}, lg(1, 1, 1000, 2), hd(1001),
+				{Op: "restart", Kill: "pollfail", Upg: []int{0}}, hd(1002), lg(2, 2, 1002, 1), hd(1003), hd(1004)}},
+		{scenCfg{Wait: true, Head0: 999, PollMs: 1, Name: "restart-lost-log-reannounced-later"},
+			[]step{{Op: "restart", Kill: "blocktime", Tx: 1, Body: 1, Em: 1, Seq: 1, CL: 1, Block: 1000, BH: 1}, hd(1005), lg(1, 1, 1000, 1), hd(1006), hd(1007)}},
+		{scenCfg{Wait: true, Head0: 999, PollMs: 1, Name: "restart-orphaned-while-down"},
+			[]step{lg(1, 1, 1000, 1), lg(2, 2, 1000, 1), {Op: "restart", Kill: "blocktime", Tx: 3, Body: 3, Em: 1, Seq: 3, CL: 1, Block: 1000, BH: 3},
+				{Op: "reorg", Tx: 1, How: "gone"}, {Op: "reobs", Tx: 3}, hd(1100), lg(4, 4, 1100, 1), hd(1101), hd(1102)}},
 	}
 }
 
@@ -1374,6 +1659,7 @@ func TestVerifC10(t *testing.T) {
 			r := &erng{s: evmSeed()*1000003 + uint64(i)*7919 + 17}
 			cfg := scenCfg{Wait: r.chance(65), Finalized: r.chance(25), Head0: uint64(1000 + r.below(200)), PollMs: 1, Name: fmt.Sprintf("gen-%d", i)}
 			cfg.Sentinel = r.chance(70)
+			cfg.Restarts = r.chance(30)
 			jobs = append(jobs, job{100 + i, cfg, genScript(r, &cfg, cfg.Sentinel, probe.maxWaitConfirmations)})
 		}
 	}
